@@ -63,6 +63,8 @@ def c01_core():
     # boxed (dyn) variants
     add("boxed_choice", rest_after(Bx(Or3(Bx(Tag(1, Sp(Then(Just(0), Just(1))))), Bx(Tag(2, Sp(Then(Just(2), Just(3))))), Tag(3, Sp(Just(4)))))),
         aims="the dyn path (Boxed::go -> go_emit)")
+    add("boxed_filter_checked", rest_after(Or(Tag(1, IgnoreThen(Bx(Filter(Any(), 0)), Sp(Just(1)))), Tag(2, Then(Sp(Any()), Sp(Bx(Not(Bx(Filter(Any(), 2))))))))),
+        aims="a boxed filter evaluated in CHECK mode (left of ignore_then, inside not): the dyn go_check path must apply the predicate too")
     add("boxed_lookahead", rest_after(Bx(Then(Sp(Bx(OrNot(Bx(Then(Just(0), Just(1)))))), Sp(Bx(Not(Just(2))))))),
         aims="boxed or_not / not")
     # EmptyErr (zero-sized error fast paths)
@@ -166,6 +168,8 @@ def c02_core():
         pre="t[2] > t[3]", finding="F4", aims="separated_by with at_least > at_most")
     add("sep_item2", rest_after(Sp(Sep(Sp(Then(Just(0), Just(1))), Just(2), K(0), INF, FP(3), FP(4)))), n=3, always_accepts=True,
         timeout=900, aims="two-token item failing after the separator was consumed: separator given back unless trailing allowed")
+    add("sep_sep2", rest_after(Sp(Sep(Sp(Just(0)), Then(Just(1), Just(2)), P(3), INF, FK(False), FP(4)))), n=4, timeout=900,
+        aims="a two-token separator that matches its first token and then fails after the last item: the partial separator is given back")
     add("sep_csv", rest_after(Sp(Sep(Sp(NoneOf1(0)), Just(0), P(1), INF, FK(False), FP(2)))), n=4,
         aims="none_of(sep) items separated by sep; at_least symbolic")
     add("sep_unit", rest_after(Sp(SepUnit(Just(0), Just(1), P(2), P(3), FP(4), FP(5)))), n=3, pre="t[2] <= t[3]",
@@ -411,6 +415,8 @@ def c08_core():
         aims="recovery nested in recovery")
     add("skip_until", rest_after(Sp(RecSkipUntil(Tag(1, Then(Just(0), Just(1))), Any(), Just(2)))), n=4, timeout=900,
         aims="skip_until consumes the fewest skip steps after which `until` matches (until is consumed)")
+    add("skip_until_until2", rest_after(Sp(RecSkipUntil(Tag(1, Then(Just(0), Just(1))), Any(), Then(Just(2), Just(3))))), n=4, timeout=900,
+        aims="a two-token `until` that matches its first token and then fails must be given back before the next skip step (the real terminator may overlap the failed attempt)")
     add("skip_retry", rest_after(Sp(RecSkipRetry(Tag(1, Then(Just(0), Just(1))), Any(), Just(2)))), n=4, timeout=900,
         aims="skip_then_retry_until: retry p after each skip; give up when until matches or skip fails")
     add("skip_retry_emitting", rest_after(RecSkipRetry(Then(Validate(Just(0), 1), Just(1)), Any(), Just(2))), n=4, timeout=900,
